@@ -211,6 +211,8 @@ P["C14"] = dict(
     obligations=ob("JSight.Props.C14",
         ("Props.C14.C14_json_len", "Len of an embedded JSON document = length of the document without trailing blanks"),
         ("Props.C14.C14_events_embedded", "events of an embedded document then end-top at the foreign byte"),
+        ("Props.C14.C14_schema_len_whole", "schema scanner model: Len of a plain-JSON schema filling the input = offset just after the value (any tree, any layout)"),
+        ("Props.C14.C14_schema_len_embedded", "schema scanner model: Len of a plain-JSON schema followed by foreign text = offset just after the value (glued or blank-separated foreign byte; exact side condition for bytes glued to a number)"),
         ("Props.C14.C14_enum_len", "enum rule text ws [ items ] ws (grammar tokens, any layout incl. line breaks): Len is the offset just after the closing bracket"),
         ("Props.C14.C14_len_error", "a scanner error is the error of Len")),
     runs=[{"cmd": ["c14-len"]}, {"cmd": ["json-diff"]}, {"cmd": ["schema-diff"]}, {"cmd": ["enum-diff"]}],
